@@ -1,13 +1,633 @@
+// Package xnetdiff is a differential self-test of verif/oracle/htmltok
+// against golang.org/x/net/html's tokenizer. It lives in its own module so
+// that the main module does not depend on x/net.
+//
+// Random markup is generated with a fixed-seed math/rand (a grammar of
+// tags / attributes / comments / text / character references, plus an
+// unstructured "soup" of markup fragments, plus random truncation so that
+// EOF lands inside every construct), tokenized by both, and the normalised
+// token streams are compared:
+//
+//	(kind, tag name, attribute names+values in order, self-closing, text/comment data)
+//
+// Where the two disagree the WHATWG spec decides. The x/net deviations from
+// the spec that were found (by reading its source and by running this test)
+// are listed at xnetDeviation below; inputs that hit one are skipped (and
+// counted), everything else must agree exactly.
+//
+// Normalisations applied to both sides before comparing (not deviations, just
+// API differences):
+//   - adjacent text tokens are merged and the Mode is ignored (x/net splits
+//     text differently and has no mode); empty text tokens are dropped
+//   - U+0000 is mapped to U+FFFD everywhere (x/net leaves NUL handling in tag
+//     names / attributes / data text to its parser)
+//   - end tags: only the name is compared (x/net's tokenizer discards
+//     attributes and the self-closing flag of end tags)
+//   - duplicate attributes: x/net keeps them; htmltok keeps them flagged
+//     Dropped - names and values are compared for all of them
+//   - x/net reports the dropped "</>" as an empty comment whose Raw() is
+//     "</>"; that pseudo-token is removed
+//   - DOCTYPE: x/net's tokenizer returns the raw text after "<!DOCTYPE"; only
+//     the name (first whitespace-delimited word, lower-cased) is compared, and
+//     implicitly the position where the token ends
+//   - noscript: x/net always treats it as raw text, so htmltok runs with
+//     Scripting=true
+//   - foreign mode: htmltok NoStateSwitch=true  ⇔  x/net AllowCDATA(true) plus
+//     NextIsNotRawText() after every start tag
 package xnetdiff
 
 import (
+	"bytes"
+	"fmt"
+	"math/rand"
+	"os"
+	"regexp"
+	"strconv"
+	"strings"
 	"testing"
 
 	"golang.org/x/net/html"
 	"verif/oracle/htmltok"
 )
 
-func TestSmoke(t *testing.T) {
-	_ = html.NewTokenizer
-	_ = htmltok.Tokenize
+type item struct {
+	kind  string
+	name  string
+	attrs []string // "k=v"
+	self  bool
+	text  string
+}
+
+func (it item) String() string {
+	switch it.kind {
+	case "start":
+		s := "<" + it.name
+		for _, a := range it.attrs {
+			s += fmt.Sprintf(" %q", a)
+		}
+		if it.self {
+			s += " /"
+		}
+		return s + ">"
+	case "end":
+		return "</" + it.name + ">"
+	default:
+		return fmt.Sprintf("%s:%q", it.kind, it.text)
+	}
+}
+
+func nul(s string) string { return strings.ReplaceAll(s, "\x00", "\uFFFD") }
+
+func appendText(items []item, s string) []item {
+	if s == "" {
+		return items
+	}
+	if n := len(items); n > 0 && items[n-1].kind == "text" {
+		items[n-1].text += s
+		return items
+	}
+	return append(items, item{kind: "text", text: s})
+}
+
+func doctypeName(s string) string {
+	s = strings.TrimLeft(s, " \t\n\f\r")
+	if i := strings.IndexAny(s, " \t\n\f\r"); i >= 0 {
+		s = s[:i]
+	}
+	return strings.ToLower(s)
+}
+
+func viaXNet(in []byte, foreign bool) []item {
+	z := html.NewTokenizer(bytes.NewReader(in))
+	if foreign {
+		z.AllowCDATA(true)
+	}
+	var items []item
+	for {
+		tt := z.Next()
+		switch tt {
+		case html.ErrorToken:
+			return items
+		case html.TextToken:
+			items = appendText(items, nul(string(z.Text())))
+		case html.StartTagToken, html.SelfClosingTagToken:
+			it := item{kind: "start", self: tt == html.SelfClosingTagToken}
+			name, more := z.TagName()
+			it.name = nul(string(name))
+			for more {
+				var k, v []byte
+				k, v, more = z.TagAttr()
+				it.attrs = append(it.attrs, nul(string(k))+"="+nul(string(v)))
+			}
+			items = append(items, it)
+			if foreign {
+				z.NextIsNotRawText()
+			}
+		case html.EndTagToken:
+			name, _ := z.TagName()
+			items = append(items, item{kind: "end", name: nul(string(name))})
+		case html.CommentToken:
+			if string(z.Raw()) == "</>" {
+				continue
+			}
+			items = append(items, item{kind: "comment", text: nul(string(z.Text()))})
+		case html.DoctypeToken:
+			items = append(items, item{kind: "doctype", name: nul(doctypeName(string(z.Text())))})
+		}
+	}
+}
+
+func viaOracle(in []byte, foreign bool) ([]item, htmltok.Result) {
+	r := htmltok.Tokenize(in, htmltok.Options{Scripting: true, NoStateSwitch: foreign})
+	var items []item
+	for _, t := range r.Tokens {
+		switch t.Kind {
+		case htmltok.Text:
+			items = appendText(items, nul(t.Data))
+		case htmltok.StartTag:
+			it := item{kind: "start", name: nul(t.Name), self: t.SelfClosing}
+			for _, a := range t.Attrs {
+				it.attrs = append(it.attrs, nul(a.Name)+"="+nul(a.Value))
+			}
+			items = append(items, it)
+		case htmltok.EndTag:
+			items = append(items, item{kind: "end", name: nul(t.Name)})
+		case htmltok.Comment:
+			// D8: x/net decodes character references in comment data (its
+			// Text() unescapes everything that is not raw text); the spec
+			// does not. Rather than skipping every comment that contains an
+			// '&', the oracle's data is passed through x/net's own
+			// UnescapeString so that everything else about the comment is
+			// still compared.
+			items = append(items, item{kind: "comment", text: html.UnescapeString(nul(t.Data))})
+		case htmltok.Doctype:
+			items = append(items, item{kind: "doctype", name: nul(t.Name)})
+		}
+	}
+	return items, r
+}
+
+// ---- known x/net deviations ----------------------------------------------------
+
+var (
+	// D1: "&#x;" / "&#X;" (hex reference without digits but with a semicolon)
+	// is decoded by x/net to U+FFFD; the spec leaves it as text
+	// (absence-of-digits-in-numeric-character-reference).
+	reHexNoDigits = regexp.MustCompile(`&#[xX];`)
+	// D2: x/net needs at least four bytes "&#d?" in the remaining text /
+	// attribute-value slice, so a numeric reference whose last digit is the
+	// last byte of the slice ("&#5" directly before a tag, a quote or EOF)
+	// is not decoded; the spec decodes it. Detected conservatively: any
+	// one-digit decimal reference not followed by a digit or ';' .
+	reShortNumeric = regexp.MustCompile(`&#[0-9]([^0-9;]|$)`)
+	// D3: x/net accumulates the code point in an int32 which overflows for
+	// long digit strings; the spec saturates (→ U+FFFD).
+	reLongNumeric = regexp.MustCompile(`&#([0-9]{10,}|[xX][0-9a-fA-F]{8,})`)
+	// D4: in the script data escaped less-than sign state x/net falls back to
+	// the (unescaped) script data state for "anything else", the spec says
+	// script data *escaped*. Detected conservatively: inside a script whose
+	// text contains "<!--", a '<' followed by something that is neither '/'
+	// nor an ASCII letter.
+	reScriptEscLT = regexp.MustCompile(`(?is)<script.*<!--.*<([^/a-zA-Z]|$)`)
+	// D5 (detected on the token stream, see xnetDeviation): CDATA sections
+	// (AllowCDATA): x/net decodes character references in the section text;
+	// the spec does not.
+	// D6: EOF inside the "DOCTYPE" / "[CDATA[" keyword of a markup
+	// declaration: x/net does not back up and returns an empty comment; the
+	// spec produces a bogus comment with the partial keyword as data.
+	rePartialDecl = regexp.MustCompile(`(?i)<!(d|do|doc|doct|docty|doctyp|\[|\[c|\[cd|\[cda|\[cdat|\[cdata)$`)
+	// D9: "<!>" as the last three bytes of the input: x/net reads two bytes
+	// after "<!" before looking at them, hits EOF on the second and returns a
+	// comment with data ">"; the spec gives an empty comment.
+	reBangGTEOF = regexp.MustCompile(`<!>$`)
+)
+
+// xnetDeviation returns a non-empty reason if the input (or the oracle's
+// tokenization of it) exhibits a construct on which x/net is known to deviate
+// from the spec.
+func xnetDeviation(in []byte, foreign bool, r htmltok.Result) string {
+	switch {
+	case reHexNoDigits.Match(in):
+		return "D1 &#x; decoded"
+	case reShortNumeric.Match(in):
+		return "D2 short numeric reference at end of slice"
+	case reLongNumeric.Match(in):
+		return "D3 numeric reference overflow"
+	case !foreign && reScriptEscLT.Match(in):
+		return "D4 script data escaped less-than sign fallback"
+	case rePartialDecl.Match(in):
+		return "D6 EOF in partial DOCTYPE/CDATA keyword"
+	case reBangGTEOF.Match(in):
+		return "D9 <!> at EOF"
+	}
+	for _, t := range r.Tokens {
+		if t.Kind == htmltok.Text && t.Mode == htmltok.ModeCDATA && strings.Contains(t.Data, "&") {
+			return "D5 charrefs decoded in CDATA"
+		}
+		if t.Kind != htmltok.StartTag || len(t.Attrs) == 0 {
+			continue
+		}
+		// D7: x/net decides "self-closing" by looking at the byte before '>',
+		// so <a b=c/> (unquoted value "c/", not self-closing per spec) is
+		// reported as self-closing.
+		if a := t.Attrs[len(t.Attrs)-1]; a.HasValue && a.Quote == 0 && strings.HasSuffix(a.RawValue, "/") {
+			return "D7 unquoted value ending in / taken as self-closing"
+		}
+	}
+	return ""
+}
+
+// ---- generators ---------------------------------------------------------------------
+
+type gen struct {
+	rng     *rand.Rand
+	foreign bool
+	b       bytes.Buffer
+}
+
+func (g *gen) pick(ss ...string) string { return ss[g.rng.Intn(len(ss))] }
+func (g *gen) chance(n int) bool        { return g.rng.Intn(n) == 0 }
+
+var tagNames = []string{"a", "b", "p", "div", "br", "img", "svg", "math", "x-y", "a1",
+	"title", "textarea", "style", "script", "xmp", "iframe", "noembed", "noframes", "noscript", "plaintext",
+	"TITLE", "Script", "sCRIPT", "STYLE", "TextArea", "titles", "scrip", "scriptx"}
+
+func (g *gen) ws() string { return g.pick(" ", " ", " ", "\n", "\t", "\f", "\r", "\r\n", "  ") }
+
+func (g *gen) optWS() string {
+	if g.chance(3) {
+		return g.ws()
+	}
+	return ""
+}
+
+var namedRefs = []string{"amp", "lt", "gt", "quot", "apos", "nbsp", "not", "notin", "notit", "copy", "reg", "AMP", "LT",
+	"Aacute", "frac12", "sup1", "hellip", "NotEqualTilde", "fjlig", "semi", "equals", "lpar", "foo", "a", "Amp", "ampamp",
+	"CounterClockwiseContourIntegral", "para", "parallel", "cent", "centerdot", "times", "timesb", "ord", "ordf", "ordm", "order"}
+
+func (g *gen) charRef() string {
+	switch g.rng.Intn(10) {
+	case 0, 1, 2, 3:
+		s := "&" + g.pick(namedRefs...)
+		switch g.rng.Intn(4) {
+		case 0:
+		case 1:
+			s += g.pick("=", "x", "1", " ", "-", ";;", "&")
+		default:
+			s += ";"
+		}
+		return s
+	case 4, 5:
+		s := "&#" + g.pick("65", "0", "128", "150", "159", "129", "13", "10", "55296", "57343", "1114111", "1114112", "65534", "64976", "233", "8364", "999999999", "34", "60")
+		if !g.chance(4) {
+			s += ";"
+		} else {
+			s += g.pick("", "x", " ", "=", "a")
+		}
+		return s
+	case 6, 7:
+		s := "&#" + g.pick("x", "X") + g.pick("41", "0", "80", "9F", "9f", "81", "D", "d800", "DFFF", "10FFFF", "110000", "FFFE", "1F600", "e9", "7FFFFFF", "22", "3c", "00041")
+		if !g.chance(4) {
+			s += ";"
+		} else {
+			s += g.pick("", "g", " ", "=", "z")
+		}
+		return s
+	case 8:
+		return g.pick("&", "&#", "&#x", "&#;", "&#xg", "&;", "& ", "&&", "&#-1;", "&#x-1;", "&#X")
+	default:
+		return "&" + g.pick("am", "l", "no", "xyz", "9") + g.pick("", ";", "=")
+	}
+}
+
+func (g *gen) textRun() string {
+	var s string
+	n := 1 + g.rng.Intn(4)
+	for i := 0; i < n; i++ {
+		switch g.rng.Intn(14) {
+		case 0, 1, 2, 3:
+			s += g.pick("a", "bc", "Hello", "x y", "é", "日本", "1", "script", "title")
+		case 4:
+			s += g.ws()
+		case 5, 6:
+			s += g.charRef()
+		case 7:
+			s += g.pick("<", "< ", "<1", "<>", "<=", "<<", "<\n", "<-")
+		case 8:
+			s += g.pick(">", "\"", "'", "=", "/", "`", "]", "]]>", "-", "--", "-->", "!", "?")
+		case 9:
+			s += g.pick("\x00", "\xff", "\xc3", "\xe2\x82")
+		case 10:
+			s += g.pick("</>", "</ >", "</1>")
+		default:
+			s += g.pick("a", "b", " ")
+		}
+	}
+	return s
+}
+
+func (g *gen) attrName() string {
+	return g.pick("a", "b", "href", "ID", "Class", "data-x", "on:click", "x.y", "b", "a", "=", "=a", "a\"", "a'b", "a<", "é", "\x00n", "A")
+}
+
+func (g *gen) attrValueBody(quote string) string {
+	var s string
+	n := g.rng.Intn(4)
+	for i := 0; i < n; i++ {
+		switch g.rng.Intn(8) {
+		case 0, 1, 2:
+			s += g.pick("v", "x1", "foo", "é", "?a=1", "b=2", "/", "a/b")
+		case 3, 4:
+			s += g.charRef()
+		case 5:
+			switch quote {
+			case "\"":
+				s += g.pick("'", ">", "<", " ", "\n", "\r\n", "=", "`", "/>")
+			case "'":
+				s += g.pick("\"", ">", "<", " ", "\r", "=", "`", "/>")
+			default:
+				s += g.pick("\"", "'", "<", "=", "`", "/")
+			}
+		case 6:
+			s += g.pick("\x00", "\xff")
+		default:
+			s += "z"
+		}
+	}
+	return s
+}
+
+func (g *gen) attr() string {
+	s := g.attrName()
+	switch g.rng.Intn(6) {
+	case 0:
+		return s
+	case 1:
+		return s + g.optWS() + "=" + g.optWS()
+	case 2:
+		return s + g.optWS() + "=" + g.optWS() + g.attrValueBody("")
+	case 3:
+		return s + g.optWS() + "=" + g.optWS() + "'" + g.attrValueBody("'") + "'"
+	default:
+		return s + g.optWS() + "=" + g.optWS() + "\"" + g.attrValueBody("\"") + "\""
+	}
+}
+
+func (g *gen) tag(end bool) string {
+	s := "<"
+	if end {
+		s += "/"
+	}
+	s += g.pick(tagNames...)
+	n := g.rng.Intn(4)
+	if end {
+		n = g.rng.Intn(5) / 4
+	}
+	for i := 0; i < n; i++ {
+		if g.chance(10) {
+			s += g.pick("", "/") // missing whitespace / stray solidus
+		} else {
+			s += g.ws()
+		}
+		s += g.attr()
+	}
+	s += g.optWS()
+	if g.chance(6) {
+		s += g.pick("/", "/ ", "//")
+	}
+	return s + ">"
+}
+
+func (g *gen) commentBody() string {
+	var s string
+	n := g.rng.Intn(5)
+	for i := 0; i < n; i++ {
+		s += g.pick("a", " ", "-", "--", "!", "<", "<!", "<!-", "<!--", ">", "->", "--!", "x", "\n", "\r\n", "\x00", "&amp;", "</script>", "é", "<!---")
+	}
+	return s
+}
+
+func (g *gen) comment() string {
+	switch g.rng.Intn(12) {
+	case 0:
+		return g.pick("<!-->", "<!--->", "<!---->", "<!----->", "<!--!>", "<!----!>", "<!--->-->")
+	case 1:
+		return "<!--" + g.commentBody() + "--!>"
+	case 2:
+		return "<?" + g.commentBody() + ">"
+	case 3:
+		return "<!" + g.pick("", "x", "-", "[", "[CDATA", "doc", "ELEMENT ", "]") + g.commentBody() + ">"
+	case 4:
+		return "</" + g.pick(" ", "1", "-", "?", "!", "=") + g.commentBody() + ">"
+	default:
+		return "<!--" + g.commentBody() + "-->"
+	}
+}
+
+func (g *gen) doctype() string {
+	s := "<!" + g.pick("DOCTYPE", "doctype", "DocType") + g.pick(" ", "", "\n", "  ") + g.pick("html", "HTML", "svg", "", "x\x00y")
+	switch g.rng.Intn(5) {
+	case 0:
+		s += ` PUBLIC "-//W3C//DTD HTML 4.01//EN" "http://www.w3.org/TR/html4/strict.dtd"`
+	case 1:
+		s += ` SYSTEM 'about:legacy-compat'`
+	case 2:
+		s += " " + g.pick("foo", "public", "PUBLIC \"a>b\"", "SYSTEM x", "PUBLIC 'a' 'b' c", "system\"x\"")
+	}
+	return s + g.optWS() + ">"
+}
+
+func (g *gen) rawContent(name string) string {
+	var s string
+	n := g.rng.Intn(6)
+	for i := 0; i < n; i++ {
+		switch g.rng.Intn(12) {
+		case 0, 1:
+			s += g.pick("a", "x = 1;", " ", "\n", "é", "&amp;", "&lt", "\x00")
+		case 2:
+			s += "</" + g.pick(tagNames...) + g.pick(">", " >", "", "x>", "/>", "\t", " a=b>")
+		case 3:
+			s += "</" + name + g.pick("x", "-", "", "<", "&")
+		case 4:
+			s += g.pick("<!--", "<!-", "<!", "-->", "--", "-", "->", "--!>", ">")
+		case 5:
+			s += "<" + g.pick("script", "SCRIPT", "Script", "scrip", "scriptx", "b", "title") + g.pick(">", " ", "/", "", "\n", "-", "x>")
+		case 6:
+			s += "</" + g.pick("script", "SCRIPT", "scrip", "scriptx") + g.pick(">", " ", "/", "", "\r", "-")
+		case 7:
+			s += g.pick("<", "</", "< ", "<1")
+		default:
+			s += g.pick("a", "b", "c")
+		}
+	}
+	return s
+}
+
+func (g *gen) cdata() string {
+	var s string
+	n := g.rng.Intn(5)
+	for i := 0; i < n; i++ {
+		s += g.pick("a", "]", "]]", "]>", ">", "<", "<b>", " ", "\r\n", "]] >", "é", "]]]")
+	}
+	return "<![CDATA[" + s + g.pick("]]>", "]]>", "]]>", "]]]>", "")
+}
+
+// document generates a structured document.
+func (g *gen) document() []byte {
+	g.b.Reset()
+	n := 1 + g.rng.Intn(8)
+	for i := 0; i < n; i++ {
+		switch g.rng.Intn(12) {
+		case 0, 1, 2:
+			g.b.WriteString(g.textRun())
+		case 3, 4, 5:
+			g.b.WriteString(g.tag(false))
+		case 6:
+			g.b.WriteString(g.tag(true))
+		case 7:
+			g.b.WriteString(g.comment())
+		case 8:
+			g.b.WriteString(g.doctype())
+		case 9, 10:
+			// raw text element with adversarial content
+			name := g.pick("title", "textarea", "style", "script", "script", "script", "xmp", "iframe", "noembed", "noframes", "noscript", "plaintext")
+			g.b.WriteString("<" + name + g.pick(">", " a=b>", "/>", "\n>"))
+			g.b.WriteString(g.rawContent(name))
+			if !g.chance(8) {
+				g.b.WriteString("</" + g.pick(name, strings.ToUpper(name)) + g.pick(">", " >", "\n>", "/>"))
+			}
+		default:
+			if g.foreign {
+				g.b.WriteString(g.cdata())
+			} else {
+				g.b.WriteString(g.charRef())
+			}
+		}
+	}
+	out := append([]byte(nil), g.b.Bytes()...)
+	if g.chance(3) && len(out) > 0 {
+		out = out[:g.rng.Intn(len(out)+1)] // EOF anywhere
+	}
+	return out
+}
+
+var soupAlphabet = []string{
+	"<", ">", "/", "!", "-", "--", "=", "\"", "'", "&", ";", "#", "x", " ", "\n", "\r", "\t", "\f", "\x00", "?", "]", "[",
+	"a", "b", "script", "SCRIPT", "title", "textarea", "style", "plaintext", "noscript", "xmp", "iframe",
+	"<!--", "-->", "--!>", "<script>", "</script>", "<title>", "</title>", "<style>", "</style>", "<![CDATA[", "]]>",
+	"<!DOCTYPE", "doctype", "PUBLIC", "SYSTEM", "html", "&amp", "&lt", "&not", "&notin;", "&#", "&#x", "41", "0", "D800",
+	"\xff", "\xc3\xa9", "\xe2\x82", "`", "href", "id=", "<a ", "<b", "</a", "</", "<!", "<?",
+}
+
+// soup generates unstructured markup.
+func (g *gen) soup() []byte {
+	g.b.Reset()
+	n := g.rng.Intn(25)
+	for i := 0; i < n; i++ {
+		g.b.WriteString(soupAlphabet[g.rng.Intn(len(soupAlphabet))])
+	}
+	return append([]byte(nil), g.b.Bytes()...)
+}
+
+// ---- the test -------------------------------------------------------------------------------
+
+func equalItems(a, b []item) bool {
+	if len(a) != len(b) {
+		return false
+	}
+	for i := range a {
+		if a[i].String() != b[i].String() {
+			return false
+		}
+	}
+	return true
+}
+
+func compare(t *testing.T, in []byte, foreign bool, skipped map[string]int) (compared bool) {
+	t.Helper()
+	mine, r := viaOracle(in, foreign)
+	theirs := viaXNet(in, foreign)
+	if equalItems(mine, theirs) {
+		return true
+	}
+	if why := xnetDeviation(htmltok.Preprocess(in), foreign, r); why != "" {
+		skipped[why]++
+		return false
+	}
+	t.Errorf("MISMATCH foreign=%v input %q\n htmltok: %v\n   x/net: %v\n  errors: %v final=%+v", foreign, in, mine, theirs, r.Errors, r.Final)
+	return true
+}
+
+func TestDifferential(t *testing.T) {
+	n := 300000
+	if testing.Short() {
+		n = 30000
+	}
+	seed := int64(20261002)
+	// XNETDIFF_N / XNETDIFF_SEED allow longer one-off runs.
+	if v, err := strconv.Atoi(os.Getenv("XNETDIFF_N")); err == nil && v > 0 {
+		n = v
+	}
+	if v, err := strconv.ParseInt(os.Getenv("XNETDIFF_SEED"), 10, 64); err == nil {
+		seed = v
+	}
+	for _, foreign := range []bool{false, true} {
+		for _, mode := range []string{"document", "soup"} {
+			name := fmt.Sprintf("%s/foreign=%v", mode, foreign)
+			t.Run(name, func(t *testing.T) {
+				g := &gen{rng: rand.New(rand.NewSource(seed)), foreign: foreign}
+				skipped := map[string]int{}
+				compared := 0
+				for i := 0; i < n; i++ {
+					var in []byte
+					if mode == "document" {
+						in = g.document()
+					} else {
+						in = g.soup()
+					}
+					if compare(t, in, foreign, skipped) {
+						compared++
+					}
+					if t.Failed() {
+						t.FailNow()
+					}
+				}
+				t.Logf("%d inputs agreed; disagreements excused by known x/net deviations: %v", compared, skipped)
+			})
+		}
+	}
+}
+
+// TestKnownDeviations pins each documented x/net deviation with a minimal
+// example: the oracle must give the spec answer, x/net must (still) differ.
+// If x/net ever gets fixed this test says so and the exclusion can go.
+func TestKnownDeviations(t *testing.T) {
+	cases := []struct {
+		why     string
+		in      string
+		foreign bool
+		want    string // oracle's normalised stream
+	}{
+		{"D1", "&#x;", false, `[text:"&#x;"]`},
+		{"D2", "&#9<b>", false, `[text:"\t" <b>]`},
+		{"D3", "&#x100000041;", false, "[text:\"\uFFFD\"]"},
+		{"D4", "<script><!-- < <script></script>x</script>y", false, `[<script> text:"<!-- < <script></script>x" </script> text:"y"]`},
+		{"D5", "<![CDATA[&amp;]]>", true, `[text:"&amp;"]`},
+		{"D6", "<!DOCT", false, `[comment:"DOCT"]`},
+		{"D7", "<a b=c/>", false, `[<a "b=c/">]`},
+		{"D9", "<!>", false, `[comment:""]`},
+	}
+	for _, c := range cases {
+		mine, r := viaOracle([]byte(c.in), c.foreign)
+		theirs := viaXNet([]byte(c.in), c.foreign)
+		if got := fmt.Sprint(mine); got != c.want {
+			t.Errorf("%s %q: oracle gives %s, want %s", c.why, c.in, got, c.want)
+		}
+		if equalItems(mine, theirs) {
+			t.Errorf("%s %q: x/net now agrees with the spec (%v); drop the exclusion", c.why, c.in, theirs)
+		}
+		if why := xnetDeviation(htmltok.Preprocess([]byte(c.in)), c.foreign, r); !strings.HasPrefix(why, c.why) {
+			t.Errorf("%s %q: classified as %q", c.why, c.in, why)
+		}
+	}
 }
